@@ -203,6 +203,18 @@ def run(tier):
                    "the recursive-ascent EOF error takes field .%s of the last symbol (the end of the last token is field .2)" % mm.group(1),
                    key="ascent-eof-location:.%s" % mm.group(1), file=m["file"], line=m["line"], fn=m["fn"])
     rep.floor("ascent EOF location projections", n_loc, 2)
+    # when the top stack slots are optional any of them may already be empty: the location must fall back through
+    # every optional slot, i.e. the probe is emitted once per optional slot (under a `for` over them)
+    probes = [m for m in loc_t if re.search(r"as_ref\(\)\s*\.\s*map\(\|sym\|", tu.cooked(m["fmt"]))]
+    for m in probes:
+        loops = [g for g in m["guards"] if g["kind"] == "for"]
+        in_opt = any(g["kind"] in ("if", "else") and "optional" in g["cond"] for g in m["guards"])
+        ok = bool(loops) and any("optional" in g["cond"] for g in loops)
+        rep.ob("ascent.eof-location-probes-every-optional-slot", "%s `%s` for-guards=%s" % (tu.short(m), tu.cooked(m["fmt"]).strip()[:60], [g["cond"] for g in loops]), ok or not in_opt,
+               "the EOF location for a stack whose top slots are optional is read from a single slot instead of falling back through every optional slot: "
+               "when that slot has been consumed (or is not the top) the error reports the end of an earlier token or the default location",
+               key="ascent-eof-location-single-probe", file=m["file"], line=m["line"], fn=m["fn"])
+    rep.floor("ascent optional-slot probes", len(probes), 1)
     tok_t = [m for m in ws if re.match(r"^\s*token\s*:", tu.cooked(m["fmt"]))]
     for m in tok_t:
         c = tu.cooked(m["fmt"]).strip()
